@@ -2030,6 +2030,13 @@ fn worker_main(thorough: bool) -> ! {
 
 //============ parent: worker pool, bisection =========================================
 
+/// Process ids of all workers started (their temp directories are removed at the end).
+static SPAWNED: Mutex<Vec<u32>> = Mutex::new(Vec::new());
+
+fn remove_worker_temp_dirs() {
+    for pid in SPAWNED.lock().unwrap().drain(..) { let _ = std::fs::remove_dir_all(std::env::temp_dir().join(format!("c04-tal-{pid}"))); }
+}
+
 struct WorkerProc { child: Child, stdin: ChildStdin, rx: Receiver<String>, stderr_tail: Arc<Mutex<Vec<u8>>> }
 
 enum RunOutcome { Done(TaskResult), Died(String), Hung, Infra(String) }
@@ -2039,6 +2046,7 @@ fn spawn_worker(thorough: bool) -> Result<WorkerProc, String> {
     let mut child = Command::new(exe).arg(WORKER_ARG).arg(if thorough { "thorough" } else { "quick" })
         .stdin(Stdio::piped()).stdout(Stdio::piped()).stderr(Stdio::piped())
         .spawn().map_err(|e| format!("cannot spawn worker: {e}"))?;
+    SPAWNED.lock().unwrap().push(child.id());
     let stdin = child.stdin.take().unwrap();
     let stdout = child.stdout.take().unwrap();
     let mut stderr = child.stderr.take().unwrap();
@@ -2390,6 +2398,7 @@ fn main() {
             Some(t) => {
                 let st = PoolState { queue: Mutex::new(VecDeque::from(vec![t])), results: Mutex::new(vec![]), deaths: Mutex::new(vec![]), infra: Mutex::new(vec![]), thorough, times: Mutex::new(BTreeMap::new()), t0: Instant::now(), dead_count: Mutex::new(HashMap::new()), skipped: Mutex::new(BTreeMap::new()), coarse: Mutex::new(Vec::new()), stats: Mutex::new(HashMap::new()) };
                 st.drive(1);
+                remove_worker_temp_dirs();
                 for e in st.infra.lock().unwrap().iter() { ctx.machinery_error(e.clone()) }
                 for (_, r) in st.results.lock().unwrap().iter() {
                     sp.evals(r.evals);
@@ -2480,6 +2489,7 @@ fn main() {
     let st = PoolState { queue: Mutex::new(VecDeque::from(plan.tasks)), results: Mutex::new(Vec::new()), deaths: Mutex::new(Vec::new()), infra: Mutex::new(Vec::new()), thorough, times: Mutex::new(BTreeMap::new()), t0: Instant::now(), dead_count: Mutex::new(HashMap::new()), skipped: Mutex::new(BTreeMap::new()), coarse: Mutex::new(Vec::new()), stats: Mutex::new(HashMap::new()) };
     eprintln!("c04: planned in {:.1}s", t_start.elapsed().as_secs_f64());
     st.drive(nworkers);
+    remove_worker_temp_dirs();
     eprintln!("c04: driven in {:.1}s {:?}", t_start.elapsed().as_secs_f64(), st.times.lock().unwrap());
     for e in st.infra.lock().unwrap().iter() { ctx.machinery_error(e.clone()) }
     let mut results = std::mem::take(&mut *st.results.lock().unwrap());
